@@ -8,7 +8,7 @@
     sequence the blank-separated observations after every op:  outcome/index/time/step/tables *)
 From Coq Require Import Ascii String List Bool ZArith NArith.
 From PTBase Require Import Exn PyStr PyNum PyVal Wire.
-From P Require Import ListingNav.
+From P Require Import ListingNav Uniform Table.
 Import ListNotations.
 Open Scope char_scope.
 
@@ -41,18 +41,70 @@ Definition show_obs (p : outcome * state) : str :=
   let (o, s) := p in
   show_outcome o ++ ["/"] ++ show_z (idx s) ++ ["/"] ++ show_z (tm s) ++ ["/"] ++ show_z (sp s) ++ ["/"] ++ show_tabs (tabs s).
 
+(** ---- uni: the printed-table abstraction of a file (Uniform.v)
+      uni TAB skip TAB sets        skip: table codes terminated by ','
+                                   sets: result sets terminated by ';', each  time:step:tables, a table = code/cells terminated by ','
+    Result:  <struct_okb 1|0> <known codes ,> <per result set one letter per known table: A assigned in full, - not assigned, ? partly> *)
+Definition parse_ptab (s : str) : tname * list Z :=
+  match split_c "/" s with
+  | [n; l] => (z_of_str n, repeat 0%Z (Z.to_nat (z_of_str l)))
+  | _ => (0%Z, [])
+  end.
+Definition parse_pset (s : str) : pset :=
+  match split_c ":" s with
+  | [t; k; tb] => {| ptime := z_of_str t; pstep := z_of_str k; pprint := map parse_ptab (split_term "," tb) |}
+  | _ => {| ptime := 0; pstep := 0; pprint := [] |}
+  end.
+Definition cell_letter (c : cells) : ascii :=
+  if forallb (fun o : option Z => match o with Some _ => true | None => false end) c then "A"
+  else if forallb (fun o : option Z => match o with Some _ => false | None => true end) c then "-" else "?".
+Definition run_uni (skip sets : str) : str :=
+  let P := {| pskip := map z_of_str (split_term "," skip); psets := map parse_pset (split_term ";" sets) |} in
+  (if struct_okb P then ["1"] else ["0"]) ++ [" "] ++ concat (map (fun p => show_z (fst p) ++ [","]) (known P)) ++ [" "] ++
+  join [" "] (map (fun r => map cell_letter (rtabs r)) (lsets (abstract P))).
+
+(** ---- tab: a listingtable and a sequence of reads and writes (Table.v)
+      tab TAB cols TAB rows TAB rev TAB data TAB ops
+        names: codes separated by '.', each name terminated by ','; data rows likewise; rev: 1|0
+        ops terminated by ';':  gi<int>  gn<name>  pi<int>=<vals>  pn<name>=<vals>
+    Result: per op  N (None) E (exception) O (written) C<vals> R<name>=<vals>, separated by ';' *)
+Definition parse_nm (s : str) : list Z := match s with [] => [] | _ => map z_of_str (split_c "." s) end.
+Definition show_nm (l : list Z) : str := join ["."] (map show_z l).
+Definition parse_top (s : str) : top :=
+  match s with
+  | "g" :: "i" :: r => TGet (KInt (z_of_str r))
+  | "g" :: "n" :: r => TGet (KName (parse_nm r))
+  | "p" :: "i" :: r => match split_c "=" r with [k; v] => TPut (KInt (z_of_str k)) (parse_nm v) | _ => TGet (KInt 0) end
+  | "p" :: "n" :: r => match split_c "=" r with [k; v] => TPut (KName (parse_nm k)) (parse_nm v) | _ => TGet (KInt 0) end
+  | _ => TGet (KInt 0)
+  end.
+Definition show_tres (r : tres) : str :=
+  match r with
+  | TNone => ["N"] | TErr => ["E"] | TOk => ["O"]
+  | TCol c => "C" :: show_nm c
+  | TRow n v => ("R" :: show_nm n) ++ ["="] ++ show_nm v
+  end.
+Definition run_tab (cols rows rv data ops : str) : str :=
+  let t := {| tcols := map parse_nm (split_term "," cols); trows := map parse_nm (split_term "," rows);
+              trev := str_eqb rv ["1"]; tdata := map parse_nm (split_term "," data) |} in
+  join [";"] (map show_tres (ttrace t (map parse_top (split_term ";" ops)))).
+
+Definition run_nav (init sets : str) (seqs : list str) : str :=
+  let L := {| linit := parse_init init; lsets := map parse_set (split_term ";" sets) |} in
+  match lsets L with
+  | [] => s2l "EMPTY"
+  | _ =>
+    let s0 := open L in
+    join [";"] (show_obs (ONone, s0) ::
+                map (fun q => join [" "] (map show_obs (trace round53 L s0 (map parse_op (split_term "," q))))) seqs)
+  end.
+
 Definition run_case (line : str) : str :=
   match fields line with
-  | k :: init :: sets :: seqs =>
-      if str_eqb k (s2l "nav") then
-        let L := {| linit := parse_init init; lsets := map parse_set (split_term ";" sets) |} in
-        match lsets L with
-        | [] => s2l "EMPTY"
-        | _ =>
-          let s0 := open L in
-          join [";"] (show_obs (ONone, s0) ::
-                      map (fun q => join [" "] (map show_obs (trace round53 L s0 (map parse_op (split_term "," q))))) seqs)
-        end
+  | k :: rest =>
+      if str_eqb k (s2l "nav") then match rest with init :: sets :: seqs => run_nav init sets seqs | _ => s2l "BADCASE" end
+      else if str_eqb k (s2l "uni") then match rest with [skip; sets] => run_uni skip sets | _ => s2l "BADCASE" end
+      else if str_eqb k (s2l "tab") then match rest with [cols; rows; rv; data; ops] => run_tab cols rows rv data ops | _ => s2l "BADCASE" end
       else s2l "BADCASE"
   | _ => s2l "BADCASE"
   end.
